@@ -6,11 +6,20 @@
    the comparison is exact.  When they differ, the comparison is made on a *converted* value:
 
      numba   (a, b) both signed or both unsigned integers      -> the wider integer type: exact
-             uint64 with a signed integer, or any float         -> binary64: round_sig 53 on both sides
-     pandas  integer with integer (any widths / signedness)     -> exact (narrower pairs since fix F-C02h:
-                                                                   dataframe.py widens them itself)
-             integer with float                                 -> float64: round_sig 53 on both sides
+             uint64 with a signed integer, or any float         -> binary64, inside each cross-column comparison
+                                                                   only (comparisons within a column stay exact)
+     pandas  integer with integer, a common integer dtype       -> exact (since fix F-C02h: dataframe.py widens
+                                                                   the pair itself)
+             int64 with uint64                                  -> exact when both columns are sorted and one is
+                                                                   unique, binary64 otherwise (pandas 3.0)
+             integer with float                                 -> both COLUMNS cast to float64: round_sig 53 on
+                                                                   both sides = `view_keys` with flag 1
              float32 with float64, fixed strings of any widths  -> exact
+
+   The pandas integer/float conversion is a per-column map, modelled here.  numba's per-comparison conversion is not
+   a per-column map (it would have to send two different keys of one column to one value and keep them apart) and
+   pandas' int64/uint64 route is internal to pandas; the model compares exactly there and the harness delimits the region where binary64 collapses two keys of
+   opposite sides (known finding F-C02i, harness/props/C02.py float_collapse).
 
    A key column is a list of Z in an exact, order-preserving encoding of its values (integers as
    themselves; floats and integers compared with floats scaled by 2^60; byte strings big-endian, padded).
